@@ -193,7 +193,7 @@ def _get_dataset_type1(f):
 
 def get_dataset_type2(f, natom):
     """Parse type2 FORCE_SETS text and return dataset."""
-    data = np.loadtxt(f, dtype="double")
+    data = np.loadtxt(f, dtype="double", ndmin=2)
     if data.shape[1] != 6 or (natom and data.shape[0] % natom != 0):
         msg = "Data shape of forces and displacements is incorrect."
         raise RuntimeError(msg)
